@@ -10,8 +10,9 @@ simc=/tmp/sim-mut
 out=/tmp/sim-mut-out
 git -C /repo worktree remove --force "$wt" >/dev/null 2>&1
 git -C /repo worktree add -q --detach "$wt" HEAD || exit 2
-rm -rf "$simc" "$out"; mkdir -p "$simc" "$out"
-rsync -a --exclude target --exclude target-asan /verif/sim/ "$simc/sim/"
+rm -rf "$out"; mkdir -p "$simc" "$out"
+# the build output of an earlier invocation is kept (KEEP=1) and reused: only sources are refreshed
+rsync -a --delete --exclude target --exclude target-asan /verif/sim/ "$simc/sim/"
 cp /verif/run "$simc/run"; cp /verif/known_findings.json "$out/"
 sed -i "s|/repo/src/lib.rs|$wt/src/lib.rs|" "$simc/sim/jubako-shadow/Cargo.toml"
 sed -i "s|^target-dir = .*|target-dir = \"$simc/sim/target\"|" "$simc/sim/.cargo/config.toml"
@@ -19,7 +20,7 @@ export CARGO_TARGET_DIR="$simc/sim/target" VERIF_DIR="$out" VERIF_WORKERS="${VER
 for d in /verif/seeded/*/; do
   name=$(basename "$d")
   case "$name" in *"$filter"*) ;; *) continue ;; esac
-  prop=$(python3 -c "import json,sys; print(json.load(open('$d/meta.json'))['breaks_property'])")
+  prop=$(python3 -c "import json,sys; print(json.load(open('$d/meta.json'))['breaks_property'])" 2>/dev/null || echo "${name%%-*}")
   check=$(echo "$prop" | tr 'A-Z' 'a-z')
   [ -n "${CHECK:-}" ] && check="$CHECK"
   git -C "$wt" checkout -q -- . 
